@@ -22,7 +22,7 @@ Sym(T, r, k) ==
     [] r.type = "lit"   -> LitVals[T][r.go][1 + (k % Len(LitVals[T][r.go]))]
     [] r.type = "int"   -> "i" \o ToString(1 + (k % 9))
     [] r.type = "int8"  -> <<"#1", "#-1">>[1 + (k % 2)]
-    [] r.type = "float" -> "f" \o ToString(1 + (k % 8))
+    [] r.type = "float" -> "f" \o ToString(1 + (k % 14))
     [] r.type = "bool"  -> "b1"
     [] r.type = "time"  -> "t" \o ToString(1 + (k % 5))
     [] r.type = "date"  -> "t" \o ToString(1 + (k % 3))      \* note dates: whole seconds (the notes layout has no fraction)
@@ -154,7 +154,28 @@ SharedFieldDocs ==
   {OsmDocOf(NoHdr, SharedTriple(c[1], c[2], c[3])) : c \in SharedChoices}
   \cup {ChangeDocOf(NoHdr, <<Block("Create", <<SharedTriple(f, "Node", "Way")[1]>>), Block("Modify", <<SharedTriple(f, "Node", "Way")[2]>>),
                              Block("Delete", <<SharedTriple(f, "Node", "Way")[3]>>)>>) : f \in SharedFields}
-Docs == OsmDocs \cup ChangeDocs \cup DiffDocs \cup ListPairDocs \cup SharedFieldDocs
+\* Every place a coordinate can occur (node, way node in ways and in members, member, update, bounds of the document and
+\* of an element, changeset box, note, user home) carrying every value around zero and one: f9..f14 = -0.1246254, 0.9999999,
+\* -0.0000001, -1, 1, -0.9999999 (and f6 = 0.0000001, f1 = 1.5).  SetFloats rewrites all float leaves of a value, the
+\* s-th document giving the i-th float row the (i+s)-th special value, so neighbours (lat / lon) differ.
+SpecialFloats == <<"f9", "f10", "f11", "f12", "f13", "f14", "f6", "f1">>
+RowIndex(T, g) == CHOOSE i \in 1 .. Len(Rows(T)) : Rows(T)[i].go = g
+RECURSIVE SetFloats(_, _, _)
+SetFloats(T, v, s) ==
+  [g \in DOMAIN v |->
+     LET r == RowOf(T, g) IN
+     IF r.type = "float" THEN SpecialFloats[1 + ((RowIndex(T, g) + s) % Len(SpecialFloats))]
+     ELSE IF IsScalar(r) \/ r.mode = "none" THEN v[g]
+     ELSE IF r.card = "one" THEN SetFloats(r.type, v[g], s)
+     ELSE [i \in 1 .. Len(v[g]) |-> SetFloats(r.type, v[g][i], s + i)]]
+CoordObjs == UNION {{Obj(Kinds[t], SetFloats(Kinds[t], Gen(Kinds[t], s + t, 2, Pat("all", 0), TRUE), s)) : t \in 1 .. 7} : s \in 0 .. 7}
+CoordDocs == {OsmDocOf(NoHdr, <<o>>) : o \in CoordObjs}
+\* augmented-diff actions whose old / new parts are full documents (bounds, every element kind, changesets, notes, users)
+FullPartDiffDocs ==
+  {DiffDocOf(<<Act("=modify", << >>, << AllKindsDoc(1) >>, << AllKindsDoc(4) >>)>>, << >>),
+   DiffDocOf(<<Act("=delete", << >>, << [i \in 1 .. 7 |-> AllKindsDoc(2)[Scrambled[i]]] >>, << >>),
+               Act("=create", <<Full("Way", 3)>>, << >>, << <<Full("Bounds", 5), Small("Changeset", 6), Small("Note", 7), Small("User", 8)>> >>)>>, << >>)}
+Docs == OsmDocs \cup ChangeDocs \cup DiffDocs \cup ListPairDocs \cup SharedFieldDocs \cup CoordDocs \cup FullPartDiffDocs
 DocCase(d) == [doc |-> d, tree |-> DocTree(d), unk |-> <<UnknownAttr, UnknownElem>>]
 
 (* ---- Go-shaped values (C04 / C05) ---- *)
